@@ -15,7 +15,23 @@ import (
 	"verif/engine/symgo"
 )
 
-const repoDir = "/repo"
+// repoDir is the tree under test: /repo unless VERIF_REPO names a scratch worktree
+// (development aid for running checks against seeded changes without touching /repo;
+// registered commands never set it).
+var repoDir = func() string {
+	if d := os.Getenv("VERIF_REPO"); d != "" {
+		return d
+	}
+	return "/repo"
+}()
+
+// defaultVerifDir is /verif unless VERIF_DIR is set (development copies).
+var defaultVerifDir = func() string {
+	if d := os.Getenv("VERIF_DIR"); d != "" {
+		return d
+	}
+	return "/verif"
+}()
 
 func harnessOverlay(verifDir string) map[string][]byte {
 	return harnessFiles(verifDir, "sym")
@@ -35,7 +51,7 @@ func loadProgram(verifDir string) *symgo.Program {
 func main() {
 	debug.SetGCPercent(400)
 	if len(os.Args) < 2 {
-		fmt.Fprintln(os.Stderr, "usage: vcheck explore|run|selftest ...")
+		fmt.Fprintln(os.Stderr, "usage: vcheck run|replay|selftest|twin|explore|native ...")
 		os.Exit(2)
 	}
 	switch os.Args[1] {
@@ -45,6 +61,12 @@ func main() {
 		cmdRun(os.Args[2:])
 	case "native":
 		cmdNative(os.Args[2:])
+	case "replay":
+		cmdReplay(os.Args[2:])
+	case "selftest":
+		cmdSelftest(os.Args[2:])
+	case "twin":
+		cmdTwin(os.Args[2:])
 	default:
 		fmt.Fprintln(os.Stderr, "unknown command")
 		os.Exit(2)
@@ -58,7 +80,7 @@ func cmdExplore(args []string) {
 	workers := fs.Int("j", 16, "workers")
 	params := fs.String("p", "", "comma separated int params")
 	timeout := fs.Duration("t", 0, "deadline")
-	verif := fs.String("verif", "/verif", "verif dir")
+	verif := fs.String("verif", defaultVerifDir, "verif dir")
 	panicClause := fs.String("panic", "", "clause for panics")
 	cert := fs.Int("cert", 0, "partition certificate max bits")
 	cpuprof := fs.String("cpuprofile", "", "write cpu profile")
@@ -244,7 +266,7 @@ func cmdNative(args []string) {
 			m = append(m, v)
 		}
 	}
-	res, err := nativeReplay("/verif", *pkg, []ReplayCase{{Harness: *h, Params: ps, Model: m}}, "native")
+	res, err := nativeReplay(defaultVerifDir, *pkg, []ReplayCase{{Harness: *h, Params: ps, Model: m}}, "native")
 	if err != nil {
 		fmt.Println("error:", err)
 		os.Exit(2)
